@@ -36,13 +36,13 @@ def build(spec):
 def main(tier, seed):
     t0 = time.time()
     specs = enumerate_specs(tier)
-    results = runner.run_pool(__name__, specs, tier, seed)
+    results = runner.run_pool(__name__, specs, tier, seed, optkw={"ties": True})
     return runner.finish(
         PROP, tier, seed, results, t0,
         bounds={"operand_rank": "0-2 (quick) / 0-3, 4 for permutations and matmul (thorough)", "extents": "1-4",
                 "paths_per_configuration": "<= 64 quick / 512 thorough", "ops": sorted(cat.REG)},
         assumptions=["floats are modelled as reals (no rounding)",
-                     "ties of max/min and other kinks are outside the claim (strict path conditions)",
+                     "two-way ties of max/min (exactly one tied comparison) are examined separately: the gradient must lie on the segment between the gradients of the two adjacent smooth pieces; higher-order ties and ties not exactly realisable in floating point are outside the claim",
                      "log/sqrt/fractional and negative powers on their open natural domain",
                      "cpu_ops.epsilon := 0 for exact identities through log (DESIGN 3.6)",
                      "nothing outside the enumerated shapes/arguments"],
